@@ -198,7 +198,7 @@ def files(ctx: Ctx):
 
 
 def bg_accept(kind: str, what: str) -> bool:
-    return 'custom' in what and kind.startswith(('row_extra', 'row_missing', 'row_columns:ref', 'row_columns:new', 'row_columns:vcf_var_in_const',
+    return 'custom' in what and kind.startswith(('row_extra', 'row_missing', 'row_not_dropped', 'row_columns:ref', 'row_columns:new', 'row_columns:vcf_var_in_const',
                                                    'row_columns:vcf_alias', 'row_columns:vcf_var_id', 'row_columns:mseq', 'mut_position'))
 
 
@@ -208,7 +208,8 @@ def run(ctx: Ctx):
     # custom variants are given in REF coordinates; with background variants they are lifted before being applied and reported back in REF
     # coordinates: checked through the relation with the same design on the pre-edited genome (C06's metamorphic pair), custom rows only
     from . import c06
-    c06.background_stage(ctx, ctx.n(50, 500), bg_accept)
+    c06.background_stage(ctx, ctx.n(60, 600), bg_accept,
+                         focus_over={'bg_on_custom': 0.8, 'p_custom': 1.0, 'custom_kinds': ['snv', 'mnv', 'ins', 'ins', 'ins', 'del', 'del', 'delins_u']})
     return {'rule': 'S-api: every record with REF, ALT over {A,C} of length <=3 (quick) / <=4 (thorough) at POS 1, 2, 5, plus monomorphic, through the real '
                     'CustomVariant.from_record_with_id; compared with the Coq model, with effect preservation on a template and with the documented reported form. '
                     'S-file: random designs with SNV/MNV/anchored ins/del/anchored and unanchored delins/padded/monomorphic/multi-allelic/lower-case records in 1-3 '
